@@ -21,7 +21,7 @@ var kf *known.File
 
 func TestMain(m *testing.M) {
 	kf, _ = known.Load(ev.KnownFile())
-	rec.Rule("(a) exhaustive: every rooted digraph with n <= 3 (quick) / n <= 4 plus a 5-node slice (thorough) nodes over all edge sets incl. self-loops, node names from a 3-letter alphabet (duplicates common), 0-1 node errors, against all (n-1)! renumberings of non-root nodes; (b) random graphs of 2-40 nodes with duplicate versions, parallel edges of different types/requirements, self-loops, cycles, unreachable nodes and node errors (a quarter with a duplicated node carrying several errors on both copies, a quarter with several pairs of parallel back edges or self loops that differ only in type, beyond a dozen edges) under random renumbering and edge/error shuffles; oracle = metamorphic: Canon fails for both or yields identical graphs; idempotent; root kept; result isomorphic to the input (harness canonical labeller). One evaluation = one (graph, renumbering) pair. Non-trivial: the graph has two nodes with the same version key, parallel edges or a cycle. Distinct = distinct graph text.")
+	rec.Rule("(a) exhaustive: every rooted digraph with n <= 3 (quick) / n <= 4 plus a 5-node slice (thorough) nodes over all edge sets incl. self-loops, node names from a 3-letter alphabet (duplicates common), 0-1 node errors, against all (n-1)! renumberings of non-root nodes; (b) random graphs of 2-40 nodes with duplicate versions, parallel edges of different types/requirements, self-loops, cycles, unreachable nodes and node errors (a quarter with a duplicated node carrying several errors on both copies, a quarter with several pairs of parallel back edges or self loops that differ only in type, beyond a dozen edges) under random renumbering and edge/error shuffles; oracle = metamorphic: Canon fails for both or yields identical graphs; idempotent; root kept; result isomorphic to the input (harness canonical labeller). One evaluation = one (graph, renumbering) pair. Non-trivial: the graph has two nodes with the same version key, parallel edges or a cycle. Distinct = distinct graph text. One graph in twelve is a root on its own with several node errors and self loops.")
 	ev.Main(m, rec)
 }
 
